@@ -667,7 +667,7 @@ func (p *Parser) parseProviderType(pkg *packages.Package, providerType types.Typ
 func extractExportedFields(t types.Type) ([]*StructFieldSpec, error) {
 	// Dereference pointer type if needed
 	underlying := t
-	if ptr, ok := t.(*types.Pointer); ok {
+	if ptr, ok := types.Unalias(t).(*types.Pointer); ok {
 		underlying = ptr.Elem()
 	}
 
